@@ -1,7 +1,8 @@
 package stdlib
 
 const (
-	zzMaxDelim = 2
-	zzMaxStr   = 4
-	zzMaxElem  = 1
+	zzMaxDelim   = 2
+	zzMaxStr     = 4
+	zzMaxElem    = 1
+	zzParPreempt = 1
 )
